@@ -37,7 +37,8 @@ const (
 
 type world struct {
 	r   *lib.Run
-	srv map[string]*lib.Server // by storage mode
+	srv map[string]*lib.Server // by storage mode (no backend) or proxy world name
+	pws map[string]*proxyWorld // by proxy world name
 
 	// quiesce: cases run under RLock; the persistent-state probe for a call
 	// that got no answer takes the write lock so that every other handler has
@@ -102,6 +103,60 @@ func run(r *lib.Run) {
 		wg.Wait()
 		w.stopServers()
 	}
+
+	// ---- worlds with a proxy backend (one set of servers for the whole phase:
+	// every proxied cache starts 512 lookup workers that never stop)
+	np := r.N(120, 2400)
+	if raceEnabled {
+		np = r.N(60, 400)
+	}
+	pspecs := genProxySpecs(r, np, len(specs))
+	r.Extra("proxy_world_calls_generated", len(pspecs))
+	if !w.startProxyWorlds() {
+		return
+	}
+	ch := make(chan *spec)
+	var wg sync.WaitGroup
+	for i := 0; i < workers; i++ {
+		wg.Add(1)
+		go func() {
+			defer wg.Done()
+			for s := range ch {
+				w.runCase(s)
+			}
+		}()
+	}
+	for i := range pspecs {
+		ch <- &pspecs[i]
+	}
+	close(ch)
+	wg.Wait()
+	w.stopServers()
+}
+
+func (w *world) startProxyWorlds() bool {
+	w.srv = map[string]*lib.Server{}
+	w.pws = map[string]*proxyWorld{}
+	w.parked = map[string]int64{}
+	w.usedMu.Lock()
+	w.used = map[string]bool{}
+	w.usedMu.Unlock()
+	for _, name := range proxyWorldNames {
+		pw, px, err := newProxyWorld(name)
+		if err == nil {
+			var s *lib.Server
+			s, err = lib.StartServer(lib.ServerOpts{MaxSize: 64 << 30, Storage: pw.mode, Proxy: px})
+			if err == nil {
+				w.srv[name], w.pws[name] = s, pw
+				continue
+			}
+			pw.close()
+		}
+		w.r.Inconclusive("cannot start proxy world " + name + ": " + err.Error())
+		w.stopServers()
+		return false
+	}
+	return true
 }
 
 func (w *world) startServers() bool {
@@ -142,6 +197,10 @@ func (w *world) stopServers() {
 		s.Close()
 	}
 	w.srv = nil
+	for _, pw := range w.pws {
+		pw.close()
+	}
+	w.pws = nil
 }
 
 // ---------------------------------------------------------------------------
@@ -273,6 +332,9 @@ func classify(s *spec, b *built) (string, string) {
 	}
 	if s.Present != "" {
 		c := "present"
+		if strings.HasPrefix(s.Present, "backend") {
+			c = "present-" + s.Present // present in the proxy backend only
+		}
 		if b.firstOff != 0 {
 			c += "-offset"
 		}
@@ -304,6 +366,14 @@ func (w *world) probeCtx() (context.Context, context.CancelFunc) {
 	return context.WithTimeout(context.Background(), 120*time.Second*w.deadlineScale)
 }
 
+// key names the server the case runs against.
+func (s *spec) key() string {
+	if s.World != "" {
+		return s.World
+	}
+	return s.Mode
+}
+
 func (w *world) deadlineFor(payload int64) time.Duration {
 	d := 20*time.Second + time.Duration(payload>>20)*5*time.Second
 	return d * w.deadlineScale
@@ -319,7 +389,7 @@ func (w *world) runCase(s *spec) {
 		}
 	}()
 
-	srv := w.srv[s.Mode]
+	srv := w.srv[s.key()]
 	b := w.buildFresh(s)
 	if b == nil {
 		r.Count("skipped.no-unused-content-of-this-size")
@@ -387,6 +457,9 @@ func (w *world) runCase(s *spec) {
 			r.Inconclusive(fmt.Sprintf("case %d: could not pre-store the blob over HTTP: %d %v", s.ID, res.Status, res.Err))
 			return
 		}
+	case "backend-unknown", "backend-exact":
+		w.pws[s.World].setBackend(b.hash, b.blob, s.Present)
+		logf("pre: blob placed in the %s backend only (%s)", s.World, s.Present)
 	case "bs-identity", "bs-zstd":
 		var err error
 		if s.Present == "bs-identity" {
@@ -409,9 +482,17 @@ func (w *world) runCase(s *spec) {
 		r.Inconclusive(fmt.Sprintf("case %d: pre-state probe failed: %v", s.ID, before.errs))
 		return
 	}
+	backendOnly := strings.HasPrefix(s.Present, "backend")
 	if size > 0 && before.fmPresent != wantBefore {
-		r.Inconclusive(fmt.Sprintf("case %d: pre-state not as arranged (present=%v, wanted %v)", s.ID, before.fmPresent, wantBefore))
-		return
+		if !backendOnly {
+			r.Inconclusive(fmt.Sprintf("case %d: pre-state not as arranged (present=%v, wanted %v)", s.ID, before.fmPresent, wantBefore))
+			return
+		}
+		// the harness put the blob into the backend itself: the model is the authority
+		r.Count("findmissing.disagrees-with-backend-model")
+	}
+	if backendOnly {
+		before.fmPresent = true
 	}
 	w.judgeQWS(s, "before", before, size, detail)
 
@@ -483,7 +564,7 @@ func (w *world) runCase(s *spec) {
 	}
 
 	r.Eval()
-	r.Distinct(s.Mode, s.Kind, class, s.Present, s.FirstOff, s.InstClass, s.MetaClass, s.UUIDCase, s.Chunking, s.Empties, s.Finish,
+	r.Distinct(s.key(), s.Kind, class, s.Present, s.FirstOff, s.InstClass, s.MetaClass, s.UUIDCase, s.Chunking, s.Empties, s.Finish,
 		lib.SizeClassName(s.Size), s.Extent, s.RepeatName)
 	okStr := "failed." + lib.Code(cr.err).String()
 	if cr.err == nil {
@@ -492,6 +573,15 @@ func (w *world) runCase(s *spec) {
 	r.Count(fmt.Sprintf("write.%s.%s.%s", strings.SplitN(class, ":", 2)[0], s.Kind, okStr))
 	if strings.Contains(class, ":") {
 		r.Count("variant." + class + "." + okStr)
+	}
+	if s.World != "" {
+		loc := s.Present
+		if loc == "" {
+			loc = "absent"
+		} else if loc == "http" {
+			loc = "local"
+		}
+		r.Count(fmt.Sprintf("world.%s.%s.%s.%s", s.World, loc, s.Kind, okStr))
 	}
 	r.Count("inst." + s.InstClass)
 	r.Count("meta." + s.MetaClass)
@@ -714,7 +804,7 @@ func (w *world) buildFresh(s *spec) *built {
 		if len(b.blob) == 0 {
 			return b
 		}
-		k := s.Mode + "/" + b.hash
+		k := s.key() + "/" + b.hash
 		w.usedMu.Lock()
 		taken := w.used[k]
 		if !taken {
@@ -768,6 +858,11 @@ func msgCountClass(n int) string {
 func (w *world) judgeQWS(s *spec, when string, p probe, size int64, detail func(map[string]any) map[string]any) {
 	r := w.r
 	r.Eval()
+	kind := s.Kind
+	if strings.HasPrefix(s.Present, "backend") {
+		kind += ":" + s.Present // blob present in the proxy backend only
+		r.Count("qws." + when + "." + s.World + "." + s.Present)
+	}
 	if p.qwsErr != nil {
 		r.Count("qws." + when + ".error." + lib.Code(p.qwsErr).String())
 		r.Violation(fmt.Sprintf("C16:qws:%s:inst=%s:meta=%s:name-rejected", s.Kind, s.InstClass, s.MetaClass),
@@ -777,7 +872,7 @@ func (w *world) judgeQWS(s *spec, when string, p probe, size int64, detail func(
 	if size == 0 {
 		r.Count("qws." + when + ".empty-blob")
 		if p.qwsComplete && p.qwsSize != 0 {
-			r.Violation("C16:qws:"+s.Kind+":complete-size-wrong", fmt.Sprintf("QueryWriteStatus complete with committed_size %d for a blob of size 0", p.qwsSize), detail(map[string]any{"when": when}))
+			r.Violation("C16:qws:"+kind+":complete-size-wrong", fmt.Sprintf("QueryWriteStatus complete with committed_size %d for a blob of size 0", p.qwsSize), detail(map[string]any{"when": when}))
 		}
 		return
 	}
@@ -785,15 +880,15 @@ func (w *world) judgeQWS(s *spec, when string, p probe, size int64, detail func(
 	case p.qwsComplete && p.fmPresent:
 		r.Count("qws." + when + ".complete")
 		if p.qwsSize != size {
-			r.Violation("C16:qws:"+s.Kind+":complete-size-wrong",
+			r.Violation("C16:qws:"+kind+":complete-size-wrong",
 				fmt.Sprintf("QueryWriteStatus complete with committed_size %d for a present blob of size %d", p.qwsSize, size), detail(map[string]any{"when": when}))
 		}
 	case !p.qwsComplete && !p.fmPresent:
 		r.Count("qws." + when + ".incomplete")
 	case p.qwsComplete && !p.fmPresent:
-		r.Violation("C16:qws:"+s.Kind+":complete-but-absent", "QueryWriteStatus reports complete for a blob FindMissingBlobs reports missing", detail(map[string]any{"when": when}))
+		r.Violation("C16:qws:"+kind+":complete-but-absent", "QueryWriteStatus reports complete for a blob FindMissingBlobs reports missing", detail(map[string]any{"when": when}))
 	default:
-		r.Violation("C16:qws:"+s.Kind+":incomplete-but-present", "QueryWriteStatus reports incomplete for a blob FindMissingBlobs reports present", detail(map[string]any{"when": when}))
+		r.Violation("C16:qws:"+kind+":incomplete-but-present", "QueryWriteStatus reports incomplete for a blob FindMissingBlobs reports present", detail(map[string]any{"when": when}))
 	}
 }
 
@@ -812,13 +907,13 @@ func (w *world) noAnswer(s *spec, srv *lib.Server, keyPrefix string, detail func
 	// exclusive: every other client call has returned; their handlers end within moments
 	deadline := time.Now().Add(2 * time.Second * w.deadlineScale)
 	wait := time.Millisecond
-	for srv.Inflight()-w.parked[s.Mode] > 0 && time.Now().Before(deadline) {
+	for srv.Inflight()-w.parked[s.key()] > 0 && time.Now().Before(deadline) {
 		time.Sleep(wait)
 		if wait < 500*time.Millisecond {
 			wait *= 2
 		}
 	}
-	extra := srv.Inflight() - w.parked[s.Mode]
+	extra := srv.Inflight() - w.parked[s.key()]
 	dump := lib.SelfGoroutineDump()
 	sigs := lib.GoroutineSignatures(dump)
 	parkedSigs := map[string]int{}
@@ -831,7 +926,7 @@ func (w *world) noAnswer(s *spec, srv *lib.Server, keyPrefix string, detail func
 		r.Inconclusive(fmt.Sprintf("case %d (%s): no answer before the client deadline, but the handler ended after cancellation; latency is not a verdict", s.ID, keyPrefix))
 		return
 	}
-	w.parked[s.Mode]++
+	w.parked[s.key()]++
 	r.Count("write.handler-parked")
 	r.Violation(keyPrefix+":handler-parked",
 		"ByteStream.Write neither succeeded nor failed: the client got only its own deadline and the server handler is still parked after cancellation and settle period ("+lib.SigString(parkedSigs)+")",
